@@ -48,6 +48,8 @@ CONTEXTS = {
     "or(C,no())->fail()": [["->", fn("or", [], [C, fn("no")]), fn("fail")]],
     "no()->fail()": [["->", fn("no"), fn("fail")]],
     "C->fail_all()": [["->", C, fn("fail_all")]],
+    "C->stop_all()": [["->", C, fn("stop_all")]],
+    "stop_all(C) fail()": [fn("stop_all", [], [C]), fn("fail")],
     # fail() right of a last() form, firing for the first time on the final line (the path is 'frozen' there - KF-C13-1 - but the verdict must
     # still change); only the final verdict is compared for these two
     "last()->push C->fail()": [["->", fn("last", ["nocontrib"]), fn("push", [], [["t", "L"], fn("line_number")])], ["->", C, fn("fail")]],
